@@ -1,6 +1,7 @@
 package icmp_spoofer
 
 import (
+	"bytes"
 	"fmt"
 	"net/netip"
 	"sync"
@@ -214,6 +215,9 @@ func (h *Handler6) ProcessPacket(pkt packet.Frame) (err error) {
 
 		h.Lock()
 		router, _ := h.findOrCreateRouter(mac, ip6Frame.Src())
+		if len(options.SourceLLA.MAC) == packet.EthAddrLen && !bytes.Equal(router.Addr.MAC, options.SourceLLA.MAC) {
+			router.Addr.MAC = packet.CopyMAC(options.SourceLLA.MAC) // the router advertises a new link layer address
+		}
 		router.ManagedFlag = frame.ManagedConfiguration()
 		router.OtherCondigFlag = frame.OtherConfiguration()
 		router.Preference = frame.Preference()
